@@ -112,6 +112,8 @@ pub enum Act {
 }
 
 pub struct World {
+    /// clients that are inside `pool.get()` right now
+    pub in_get: BTreeMap<usize, bool>,
     pub migrate: MigrateCtl,
     pub trace_on: bool,
     pub trace: Vec<String>,
@@ -159,6 +161,7 @@ impl World {
         trace_on: bool,
     ) -> World {
         World {
+            in_get: BTreeMap::new(),
             migrate: std::sync::Arc::new((std::sync::atomic::AtomicBool::new(false), std::sync::Mutex::new(None))),
             trace_on,
             trace: Vec::new(),
@@ -512,6 +515,7 @@ impl World {
 
     pub fn op_begin(&mut self, ci: usize, idx: usize, what: &str) {
         self.ops += 1;
+        let _ = self.in_get.insert(ci, what == "Get");
         if self.active_ops > 0 {
             self.overlapped = true;
         }
@@ -521,6 +525,7 @@ impl World {
 
     pub fn op_end(&mut self, ci: usize, idx: usize, what: &str, class: &str, pool_view: &str) {
         self.active_ops -= 1;
+        let _ = self.in_get.insert(ci, false);
         self.il.str(what);
         self.il.str(class);
         self.ev(format!("c{ci} op{idx} {what} -> {class} {pool_view}"));
